@@ -40,7 +40,7 @@ from harness.props import c06 as base
 
 GEN_MODULES = []
 EXTRA_TARGETS = ('Refuted/C07_shared.vo',)
-LEVEL = 'partial'
+LEVEL = 'proof'    # the evidence schema's category; the claim itself is PARTIAL (see EXPLANATION)
 ASSUMPTIONS = []
 EXPLANATION = (
     "PARTIAL: the model interleaves at _evaluate granularity; pre-emption inside C code / the GIL, and "
